@@ -983,8 +983,8 @@ impl Worker {
                     if buf[n] != 0 || buf[..n].contains(&0) {
                         self.problem("nul", format!("phone_to_bopomofo({:#x}, len {}) = {}: the text is not NUL-terminated at {}: b{}", phone, len, r, n, hexs(&buf)));
                     } else if std::str::from_utf8(&buf[..n]).is_err() {
-                        // (an empty text is well-formed: some 16-bit values, e.g. 0x6a07, are accepted by Syllable::try_from
-                        // and spell as "" — C13's subject, not a violation of the string contract)
+                        // (an empty text is well-formed: the empty syllable 0x8000 and the bare first-tone value 0x0005 spell
+                        // as ""; values that are no syllable, e.g. 0x6a07, are answered with -1 since the repair of C13's F47)
                         self.problem("utf8", format!("phone_to_bopomofo({:#x}) wrote b{}: not valid UTF-8", phone, hexs(&buf[..n])));
                     }
                     if buf[n + 1..].iter().any(|b| *b != 0xAA) {
